@@ -43,9 +43,13 @@ def _leaves(c):
 def check(ctx, fns, rule="R39.scaled-extent", key_prefix="scaled-extent"):
     P = ctx.P
     n = 0
-    for fn in fns:
-        if fn.body is None or fn.cfg is None:
+    for fn0 in fns:
+        if fn0.body is None or fn0.cfg is None:
             continue
+        # a guard that lives in a static helper taking the entry size as a parameter is read in the caller's terms
+        helper_calls = [c for c in fn0.calls() if c.callee and any(g.static and g.file == fn0.file for g in P.by_name.get(c.callee, []))]
+        fn = P.inlined(fn0, 2) if helper_calls else fn0
+        inlined = fn is not fn0
         pnames = [p["n"] for p in fn.params]
         # size guards: S < N * K2 -> exit   (or N * K2 > S)
         size_guards = []      # (S decl, N decl, K2, node)
@@ -98,7 +102,9 @@ def check(ctx, fns, rule="R39.scaled-extent", key_prefix="scaled-extent"):
                 ig = [x for x in idx_guards if x[0] == xtext and x[1] == N]
                 if not ig:
                     continue
-                if not fn.cfg.node_dominates(min((y for y in g.walk() if y.i in fn.cfg.where()), key=lambda y: y.i), c):
+                if inlined:
+                    pass        # node order is not comparable across an expanded helper; the guard's presence is what is read
+                elif not fn.cfg.node_dominates(min((y for y in g.walk() if y.i in fn.cfg.where()), key=lambda y: y.i), c):
                     continue
                 n += 1
                 key = "%s|%s:%s|%s" % (key_prefix, P.rel(fn.file), fn.name, c.callee)
